@@ -75,7 +75,7 @@ Definition ex_ok : program :=
          {| f_nparams := 2;
             f_body := SSeq (SIf (COr (CNot (CNonNil (VL 0))) (CDeref 3 (VL 0))) (SReturn ANil) SSkip)
                            (SReturn (AVar (VL 1))) |} ];
-     p_ginit := [false]; p_impls := [] |}.
+     p_ginit := [false]; p_impls := []; p_isig := [] |}.
 
 Example ex_ok_premises :
   exists r res,
@@ -91,7 +91,7 @@ Definition ex_global : program :=
        [ {| f_nparams := 0;
             f_body := SSeq (SAssign (VG 0) ANew) (SSeq (SCall 1 None 1 []) (SDeref 1 (VG 0))) |};
          {| f_nparams := 0; f_body := SAssign (VG 0) ANil |} ];
-     p_ginit := [true]; p_impls := [] |}.
+     p_ginit := [true]; p_impls := []; p_isig := [] |}.
 
 Theorem refuted_without_call_safety :
   exists prog r st fuel oracle,
@@ -114,7 +114,7 @@ Definition ex_xpkg : program :=
        [ {| f_nparams := 0;
             f_body := SSeq (SCall 1 (Some (VL 1)) 1 [AVar (VL 0)]) (SDeref 1 (VL 1)) |};
          {| f_nparams := 1; f_body := SReturn (AVar (VL 0)) |} ];
-     p_ginit := []; p_impls := [] |}.
+     p_ginit := []; p_impls := []; p_isig := [] |}.
 Definition ctr1 (f : fname) := Nat.eqb f 1.
 Definition two_pkgs (f : fname) := match f with 0 => 1 | _ => 0 end.
 
@@ -187,7 +187,7 @@ Proof. vm_compute. repeat split; reflexivity. Qed.
 
 (* the loop body really returns nil for a non-nil argument *)
 Example loop_overwrite_not_a_contract :
-  exists fuel oracle s', exec {| p_funcs := [fd_loop_overwrite]; p_ginit := [true]; p_impls := [] |} fuel (f_body fd_loop_overwrite)
+  exists fuel oracle s', exec {| p_funcs := [fd_loop_overwrite]; p_ginit := [true]; p_impls := []; p_isig := [] |} fuel (f_body fd_loop_overwrite)
                               (bind_params 0 [VPtr None]) oracle = OReturn VNil s' [].
 Proof. exists 10, [true]. eexists. reflexivity. Qed.
 
@@ -201,7 +201,7 @@ Definition ex_iface : program :=
             f_body := SSeq (SConv (VL 40) 0 0)
                      (SSeq (SCallI 1 1 (Some (VL 0)) (VL 40) 0 0 [ANil]) (SDeref 2 (VL 0))) |};
          {| f_nparams := 2; f_body := SSeq (SDeref 3 (VL 1)) (SReturn ANil) |} ];
-     p_ginit := []; p_impls := [[1]] |}.
+     p_ginit := []; p_impls := [[1]]; p_isig := [[1]] |}.
 
 Example iface_flows_reported :
   exists r res, analyze_program 8 no_ctr one_pkg ex_iface = Some r /\ wf_program ex_iface = true /\
@@ -217,7 +217,7 @@ Definition ex_iface_ok : program :=
             f_body := SSeq (SConv (VL 40) 0 0)
                      (SSeq (SCallI 1 1 (Some (VL 0)) (VL 40) 0 0 [ANew]) (SDeref 2 (VL 0))) |};
          {| f_nparams := 2; f_body := SSeq (SDeref 3 (VL 1)) (SReturn ANew) |} ];
-     p_ginit := []; p_impls := [[1]] |}.
+     p_ginit := []; p_impls := [[1]]; p_isig := [[1]] |}.
 
 Example iface_ok_premises :
   exists r res, analyze_program 8 no_ctr one_pkg ex_iface_ok = Some r /\ r_gsafe r = true /\ r_clocal r = true /\ r_nodel r = true /\
@@ -234,6 +234,36 @@ Example iface_affiliation_needed :
 Proof. ex_solve. Qed.
 
 
+(* interface-to-interface conversion: I1 has the same method as I0; the value is made as an I1 and used as an I0:
+   F0: y := &S0{} as I1; z := y as I0; x := z.X0x0(nil); x.V      -- both flows are reported through the two links;
+   without the triggers of the (I0, I1) pair they are lost *)
+Definition ex_iface2 (arg ret : atom_e) : program :=
+  {| p_funcs :=
+       [ {| f_nparams := 0;
+            f_body := SSeq (SConv (VL 40) 1 0) (SSeq (SConvI (VL 41) (VL 40) 0 1)
+                     (SSeq (SCallI 1 1 (Some (VL 0)) (VL 41) 0 0 [arg]) (SDeref 2 (VL 0)))) |};
+         {| f_nparams := 2; f_body := SSeq (SDeref 3 (VL 1)) (SReturn ret) |} ];
+     p_ginit := []; p_impls := [[1]]; p_isig := [[1]; [1]] |}.
+
+Example iface2_flows_reported :
+  exists r res, analyze_program 8 no_ctr one_pkg (ex_iface2 ANil ANil) = Some r /\ wf_program (ex_iface2 ANil ANil) = true /\
+    analyze_pkg all_exported 200 [] [] (all_triggers r) = Finished res /\ length (r_conflicts res) = 2 /\
+    panic_of (run_program (ex_iface2 ANil ANil) 20 []) = Some 3 /\ panic_of (run_program (ex_iface2 ANew ANil) 20 []) = Some 2.
+Proof. ex_solve. Qed.
+
+Example iface2_ok_premises :
+  exists r res, analyze_program 8 no_ctr one_pkg (ex_iface2 ANew ANew) = Some r /\ r_gsafe r = true /\ r_clocal r = true /\ r_nodel r = true /\
+    wf_program (ex_iface2 ANew ANew) = true /\ impls_plain (ex_iface2 ANew ANew) no_ctr = true /\
+    analyze_pkg all_exported 200 [] [] (all_triggers r) = Finished res /\ r_conflicts res = [].
+Proof. ex_solve. Qed.
+
+Example iface2_link_needed :
+  exists r res, analyze_program 8 no_ctr one_pkg (ex_iface2 ANil ANil) = Some r /\
+    analyze_pkg all_exported 200 [] []
+      (map etrig (r_decl r ++ concat (r_funcs r) ++ concat (r_dups r) ++ affil (ex_iface2 ANil ANil) (1, 0))) = Finished res /\
+    r_conflicts res = [].
+Proof. ex_solve. Qed.
+
 (* ---------- the (value, error) convention (C08) ---------- *)
 (* F1: if opaque { return nil, fresh error }; return new, nil     (respects the convention)
    F2: if opaque { return nil, nil }; return new, nil             (violates it)
@@ -248,7 +278,7 @@ Definition fd_err_bad : func :=
 Definition chk (x xe : nat) (d : nat) : stmt :=
   SSeq (SIf (CNonNil (VL xe)) (SReturn ANil) SSkip) (SDeref d (VL x)).
 Definition mk_err_prog (body : stmt) : program :=
-  {| p_funcs := [ {| f_nparams := 0; f_body := body |}; fd_err_ok; fd_err_bad ]; p_ginit := []; p_impls := [] |}.
+  {| p_funcs := [ {| f_nparams := 0; f_body := body |}; fd_err_ok; fd_err_bad ]; p_ginit := []; p_impls := []; p_isig := [] |}.
 Definition ex_err_checked := mk_err_prog (SSeq (SCall2 1 (Some (VL 0)) (Some (VL 50)) 1 []) (chk 0 50 1)).
 Definition ex_err_unchecked := mk_err_prog (SSeq (SCall2 1 (Some (VL 0)) (Some (VL 50)) 1 []) (SDeref 1 (VL 0))).
 Definition ex_err_callee_bad := mk_err_prog (SSeq (SCall2 1 (Some (VL 0)) (Some (VL 50)) 2 []) (chk 0 50 1)).
@@ -298,7 +328,7 @@ Qed.
 Definition mk_fwd_prog (body : stmt) : program :=
   {| p_funcs := [ {| f_nparams := 0; f_body := body |}; fd_err_ok; fd_err_bad;
                   {| f_nparams := 0; f_body := SRetCall 7 1 [] |}; {| f_nparams := 0; f_body := SRetCall 8 2 [] |} ];
-     p_ginit := []; p_impls := [] |}.
+     p_ginit := []; p_impls := []; p_isig := [] |}.
 Definition ex_fwd_ok := mk_fwd_prog (SSeq (SCall2 1 (Some (VL 0)) (Some (VL 50)) 3 []) (chk 0 50 1)).
 Definition ex_fwd_bad := mk_fwd_prog (SSeq (SCall2 1 (Some (VL 0)) (Some (VL 50)) 4 []) (chk 0 50 1)).
 
